@@ -500,6 +500,15 @@ func ctorTemplates() []Tmpl {
 		x, y := b.v(), b.v()
 		return []*Node{b.tstmt("var "+x+", "+y+" %T", useT(UVarZero, t, ""), refT(t, SubVar)), b.stmt("_, _ = " + x + ", " + y)}
 	}})
+	// a var group in which an initialised spec precedes the zero-valued one (every spec is judged on its own)
+	ts = append(ts, Tmpl{Name: "var-group-init-then-zero", Cat: CTOR, Make: func(b *B, t *Type, env *Env) []*Node {
+		x, y, z := b.v(), b.v(), b.v()
+		zl := b.tl(y+" %T", useT(UVarZero, t, ""), refT(t, SubVar))
+		zl.Feature = "var-group-after-initialised-spec"
+		zl2 := b.tl(z+" *%T", useT(UVarInert, t, ""), refT(t, SubVar))
+		n := &Node{Pre: []*Line{b.line("var (")}, Kids: []*Node{b.stmt(x + " = 30"), {Pre: []*Line{zl}}, {Pre: []*Line{zl2}}}, Post: []*Line{b.line(")")}}
+		return []*Node{n, b.stmt("_, _, _ = " + x + ", " + y + ", " + z)}
+	}})
 	ts = append(ts, one("var-ptr", false, "var $x *%T", func(t *Type) []*Use { return []*Use{useT(UVarInert, t, ""), refT(t, SubVar)} }, true))
 	ts = append(ts, one("var-blank", false, "var _ %T", func(t *Type) []*Use { return []*Use{useT(UVarInert, t, ""), refT(t, SubVar)} }, false))
 	ts = append(ts, Tmpl{Name: "var-init-call", Cat: CTOR, Make: func(b *B, t *Type, env *Env) []*Node {
